@@ -8,6 +8,10 @@ ids = [p["id"] for p in props]
 
 # id -> (engine, technique, level text, level note, design ref)
 CHECKS = {
+ "C12": ("E3", "explicit-state breadth-first search over histories of the real CLI commands (bootstrap/rotate/wipeout with flag variants) on cloned worlds, canonical-state deduplication, invariants evaluated in every state and on every transition",
+         "From the empty world every sequence of 8 (thorough: 12) command variants up to depth 4 (thorough: 5) is executed through cmd.MakeApp for memkm+memca, memkm+gcsca and localkm+localca; in every reached state the root and signing certificate profiles, lifetimes, serial arithmetic, issuer, no-clobber, key liveness, naming and wipeout clauses of the statement are checked from certificates and keys read back from durable state.",
+         "Trusted: canonical form drops key bits and signatures (no command branches on them); Cloud KMS manager is covered by C20; naming epochs restart at bootstrap and key wipeout (loosest reading that keeps content, see assumptions in evidence).",
+         "DESIGN.md#c12"),
  "C11": ("E4", "exhaustive crash-point enumeration: every prefix of every permutation (of the map-ordered certificate uploads) of the object-write log recorded from the real bootstrap and rotations, each crash store reloaded and checked",
          "The write log of a first bootstrap, of two (thorough: three) successive rotations and of a rotation retried with --overwrite after a crash is recorded from the real code over a logging storage client; every order in which one Finalize may upload its pending certificates and every prefix of each ordered log is materialised, then read back raw, through a fresh gcsca authority, and on local disk through storage/local + localca's start-up check; repeated real bootstraps must produce one of the enumerated orders (conformance of the map-order model).",
          "Trusted: object granularity (a closed writer is atomic and durable), as the property states; the space is small because the code performs 2-4 writes per operation - the value is that it is derived from the recorded log and therefore follows any reordering of the code.",
